@@ -105,6 +105,12 @@ func (x *Exec) enterBlock(st *State, fr *Frame, b, from *ssa.BasicBlock, k retCo
 	if st.dead {
 		return
 	}
+	// leaving a loop ends its frame obligations
+	for h, al := range fr.loops {
+		if !al.li.body[b] {
+			delete(fr.loops, h)
+		}
+	}
 	if li := x.loopAt(fr.fn, b); li != nil {
 		if from != nil && li.body[from] {
 			if al, ok := fr.loops[b]; ok {
@@ -464,7 +470,7 @@ func (x *Exec) sliceOp(st *State, fr *Frame, in *ssa.Slice) Val {
 			hi = n
 		}
 		x.safety(st, fr, "slice-bounds", in, 0, and(app("<=", "0", lo), app("<=", lo, hi), app("<=", hi, n)), "slice bounds in range")
-		return Term{x.define(st, "sl", "Slice", app("mk_Slice", p.Ref, lo, app("-", hi, lo), app("-", n, lo))), in.Type()}
+		return Term{x.define(st, "sl", "Slice", app("mk_Slice", p.Ref, lo, subT(hi, lo), subT(n, lo))), in.Type()}
 	case *types.Basic: // string
 		x.note("substring is uninterpreted")
 		x.reg.declFun("substr", "(Int Int Int) Int")
